@@ -15,6 +15,7 @@ import (
 	"encoding/hex"
 	"encoding/json"
 	"fmt"
+	"math/big"
 	"os"
 	"path/filepath"
 	"testing"
@@ -432,6 +433,22 @@ func oneRound(t *rapid.T, tr *transcript) {
 		x3, y3 := c.Add(x1, y1, x2, y2)
 		x4, y4 := c.Double(x1, y1)
 		x5, y5 := c.CombinedMult(x2, y2, kb, k2b)
+		// the curve points with x = 0 (unknown discrete logarithm): (0, ±sqrt(b))
+		{
+			pr := c.Params()
+			y0 := new(big.Int).ModSqrt(pr.B, pr.P)
+			if rapid.Bool().Draw(t, "negy") {
+				y0.Sub(pr.P, y0)
+			}
+			zero := new(big.Int)
+			ax, ay := c.Add(zero, y0, x1, y1)
+			bx, by := c.Add(x1, y1, zero, y0)
+			dx, dy := c.Double(zero, y0)
+			sx, sy := c.ScalarMult(zero, y0, kb)
+			cx, cy := c.CombinedMult(zero, y0, kb, k2b)
+			tr.emit("p384.special-point-x=0", "special-point", [][]byte{kb, k2b, y0.Bytes()},
+				[][]byte{ax.Bytes(), ay.Bytes(), bx.Bytes(), by.Bytes(), dx.Bytes(), dy.Bytes(), sx.Bytes(), sy.Bytes(), cx.Bytes(), cy.Bytes(), {b2b(c.IsOnCurve(zero, y0))}})
+		}
 		tr.emit("p384.ScalarBaseMult+ScalarMult+Add+Double+CombinedMult", c1+c2, [][]byte{kb, k2b},
 			[][]byte{x1.Bytes(), y1.Bytes(), x2.Bytes(), y2.Bytes(), x3.Bytes(), y3.Bytes(), x4.Bytes(), y4.Bytes(), x5.Bytes(), y5.Bytes()})
 	}
